@@ -94,16 +94,47 @@ func replayNative(ld *Loaded, spec HarnessSpec, v Violation) (bool, string, stri
 	for k, val := range spec.Params {
 		params[k] = val
 	}
-	mb, _ := json.Marshal(map[string]any{"Model": v.Model, "Params": params})
+	mb, _ := json.Marshal(map[string]any{"Model": v.Model, "Params": params, "Trace": v.Trace})
 	dir := filepath.Join(verifDir, "replays")
 	os.MkdirAll(dir, 0o755)
 	modelFile := filepath.Join(dir, tag+"_model.json")
 	os.WriteFile(modelFile, mb, 0o644)
-	out, err := runNative(replaySpec(spec), tag, modelFile, 240*time.Second)
+	attempts := 1
+	if spec.POR {
+		attempts = 3 // schedule-dependent: the steering of the real scheduler is best effort
+	}
+	var out string
+	var err error
+	ok := false
+	for a := 0; a < attempts && !ok; a++ {
+		out, err = runNative(replaySpec(spec), tag, modelFile, 240*time.Second)
+		ok = confirms(v, out)
+	}
+	if err != nil && !ok {
+		out += "\n[replay error: " + err.Error() + "]"
+	}
+	path := writeReplayFile(spec, v, out)
+	return ok, out, path
+}
+
+// labelClass is the assertion class of a label: the part before the first '/'
+// (the rest names the instance, which symmetric schedules may permute).
+func labelClass(l string) string {
+	if k := strings.Index(l, "/"); k >= 0 {
+		return l[:k]
+	}
+	return l
+}
+
+func confirms(v Violation, out string) bool {
 	ok := false
 	switch v.Kind {
 	case "assert":
-		ok = strings.Contains(out, "ZZ-VIOLATED "+v.Label+"\n")
+		for _, line := range strings.Split(out, "\n") {
+			if strings.HasPrefix(line, "ZZ-VIOLATED ") && labelClass(strings.TrimPrefix(line, "ZZ-VIOLATED ")) == labelClass(v.Label) {
+				ok = true
+			}
+		}
 	case "panic":
 		ok = strings.Contains(out, "ZZ-PANIC") || strings.Contains(out, "panic:") || strings.Contains(out, "fatal error:")
 	case "deadlock":
@@ -111,11 +142,7 @@ func replayNative(ld *Loaded, spec HarnessSpec, v Violation) (bool, string, stri
 	case "race":
 		ok = strings.Contains(out, "WARNING: DATA RACE")
 	}
-	if err != nil && !ok {
-		out += "\n[replay error: " + err.Error() + "]"
-	}
-	path := writeReplayFile(spec, v, out)
-	return ok, out, path
+	return ok
 }
 
 func runNative(spec HarnessSpec, tag, modelFile string, timeout time.Duration) (string, error) {
@@ -154,6 +181,7 @@ func cmdReplay(path string) int {
 	var r struct {
 		Property  string
 		Harness   string
+		Tag       string
 		Pkg       string
 		Violation Violation
 	}
@@ -163,7 +191,7 @@ func cmdReplay(path string) int {
 	}
 	var spec *HarnessSpec
 	for k := range allSpecs {
-		if allSpecs[k].Func == r.Harness {
+		if allSpecs[k].Func == r.Harness && allSpecs[k].Tag == r.Tag {
 			spec = &allSpecs[k]
 		}
 	}
